@@ -133,6 +133,8 @@ def gen_case(seed, idx, qu_ok):
         "start": rng.choice([1, 40, 400, 2000, 31000, 1200000, 2000000]),
         "maxdelay": rng.choice([0, 5, 20]),
         "tail": rng.choice([15000, 15000, 130000]),
+        # the second copy of a *response* may arrive later (1..999 ms) as long as nothing else arrives in between
+        "dup_gap": rng.choice([0, 0, 0, 1, 500, 999]),
         "items": [dict(it, data=it["data"].hex(), src=list(it["src"])) for it in gen_history(rng, qu_ok)],
     }
 
@@ -216,6 +218,19 @@ def features(data):
             "query": bool(m.is_query()), "tc": bool(m.truncated)}
 
 
+def rkey(r):
+    """identity of a record without TTL / flush bit / creation time"""
+    tok = (C.rec_line(r, created=0) if not isinstance(r, str) else r).split()
+    return " ".join(tok[:4] + tok[7:])
+
+
+def downstream_digest(zc):
+    """what a query could have changed downstream: the cache (with creation times), the two answer queues"""
+    cache = sorted(C.rec_line(r, created=int(r.created)) for rs in zc.cache.cache.values() for r in rs)
+    queues = [[[int(g.send_after), int(g.send_before), sorted(rkey(r) for r in g.answers)] for g in q.queue] for q in (zc.out_queue, zc.out_delay_queue)]
+    return {"cache": cache, "queues": queues}
+
+
 def qu_signature(zc, data, port, now):
     """the D11 signature evaluated on the instance just before the datagram is processed:
     query with a QU question, multicast source, and some answer to a QU question not multicast within TTL/4;
@@ -224,7 +239,7 @@ def qu_signature(zc, data, port, now):
     from zeroconf._dns import DNSRRSet
 
     m = DNSIncoming(data, (QUERIER, port), None, now)
-    out = {"qu": False, "qu_not_recent": False, "qm_answers": False, "qu_answers": False, "tc": False}
+    out = {"qu": False, "qu_not_recent": False, "qm_answers": False, "qu_answers": False, "tc": False, "remulticast": []}
     # "has a QU question" is decided here from the decoded questions' own top class bit, not from the parser's summary flag
     if not m.valid or not m.is_query() or not any(q.unique for q in m.questions) or not zc.registry.has_entries:
         return out
@@ -241,8 +256,11 @@ def qu_signature(zc, data, port, now):
                     e = zc.cache.async_get_unique(rec)
                     if e is None or not e.is_recent(now):
                         out["qu_not_recent"] = True
+                        out["remulticast"] += [rkey(x) for x in [rec] + list(ans[rec])]   # D11: the record and its additionals
             elif ans:
                 out["qm_answers"] = True
+                for rec in ans:
+                    out["remulticast"] += [rkey(x) for x in [rec] + list(ans[rec])]       # D11b: the multicast-path answers
     return out
 
 
@@ -276,7 +294,7 @@ def simulate(case, dupmask, skip_d11=False):
 
     sim.randint = lib_randint              # picked up by Sim.run's patches
     sim.net_rng = KeyedRng(sim, "net")
-    obs = {"sends": [], "callbacks": [], "lblocks": [], "routes": [], "sigs": {}, "rul_calls": 0, "deliveries": [], "d11": [], "d11sig": {}}
+    obs = {"sends": [], "callbacks": [], "lblocks": [], "routes": [], "sigs": {}, "rul_calls": 0, "deliveries": [], "d11": [], "d11sig": {}, "second_copies": [], "gap_copies": 0}
     saved = []
 
     class L(ServiceListener):
@@ -426,9 +444,29 @@ def simulate(case, dupmask, skip_d11=False):
                          and sim.now() >= case.get("dup_after", 0))
                 if twice:
                     obs["sigs"][i] = dict(sg, t=sim.now(), data=data.hex(), src=list(src))
+            n_s, n_c = len(obs["sends"]), len(obs["callbacks"])
             deliver_once(data, src)
             if twice:
+                gap = case.get("dup_gap", 0)
+                if gap and not features(data)["query"]:
+                    # a copy that arrives later (real link-layer duplicates do): still "immediate succession on the socket" only
+                    # if nothing else arrived in between -- checked when the copy is due
+                    def late_copy(data=data, src=src, lm=lst.last_message):
+                        if lst.last_message is lm:
+                            obs["gap_copies"] += 1
+                            deliver_once(data, src)
+                    sim.loop.call_later(gap / 1000.0, late_copy)
+                    return
+                first = {"sends": obs["sends"][n_s:], "callbacks": obs["callbacks"][n_c:]}
+                n_s2, n_c2 = len(obs["sends"]), len(obs["callbacks"])
+                before = downstream_digest(zc) if sg["qu"] else None
                 deliver_once(data, src)
+                if sg["qu"]:
+                    after = downstream_digest(zc)
+                    second = {"sends": obs["sends"][n_s2:], "callbacks": obs["callbacks"][n_c2:]}
+                    obs["second_copies"].append({"key": i, "sig": known_sig(sg), "tc": sg["tc"], "remulticast": sorted(set(sg["remulticast"])),
+                                                 "first": first, "second": second,
+                                                 "cache_same": before["cache"] == after["cache"], "queues_same": before["queues"] == after["queues"]})
 
         a.deliver = deliver
 
@@ -490,14 +528,37 @@ def is_unicast(s):
 
 
 def allowed_keys(dup):
-    """(time, ip, port) of every duplicated delivery that is a query with a QU question: the one place where the
-    property allows something extra -- a unicast answer to that querier at that instant"""
-    return {(sg["t"], sg["src"][0], sg["src"][1]) for sg in dup["sigs"].values() if sg.get("qu")}
+    """(time, ip, port) -> number of duplicated deliveries that are queries with a QU question from there at that instant:
+    the one place where the property allows something extra -- *one* more unicast answer per duplicated query"""
+    out = {}
+    for sg in dup["sigs"].values():
+        if sg.get("qu"):
+            k = (sg["t"], sg["src"][0], sg["src"][1])
+            out[k] = out.get(k, 0) + 1
+    return out
 
 
-def mark(obs, keys):
-    """events for the equivalence predicate: [time, allowed-extra?, digest]"""
-    return [[s[0], is_unicast(s) and (s[0], s[1], s[2]) in keys, C.digest(s)] for s in obs["sends"]]
+def mark(obs, keys, ref=None):
+    """events for the equivalence predicate: [time, allowed-extra?, digest].  An event of the duplicated run may be an
+    allowed extra only if it is unicast to a duplicated QU querier at that instant, carries no record the reference run did
+    not send there at that instant, and the number of extras there does not exceed the number of duplicated queries."""
+    ref_at, n_ref, n_dup = {}, {}, {}
+    for s_ in (ref or obs)["sends"]:
+        if is_unicast(s_):
+            k = (s_[0], s_[1], s_[2])
+            ref_at.setdefault(k, set()).update(s_[3][2] if len(s_[3]) > 2 and isinstance(s_[3][2], list) else [])
+            n_ref[k] = n_ref.get(k, 0) + 1
+    for s_ in obs["sends"]:
+        if is_unicast(s_):
+            k = (s_[0], s_[1], s_[2])
+            n_dup[k] = n_dup.get(k, 0) + 1
+    out = []
+    for s_ in obs["sends"]:
+        k = (s_[0], s_[1], s_[2])
+        ok = (is_unicast(s_) and k in keys and n_dup.get(k, 0) - n_ref.get(k, 0) <= keys[k]
+              and len(s_[3]) > 2 and isinstance(s_[3][2], list) and set(s_[3][2]) <= ref_at.get(k, set()))
+        out.append([s_[0], bool(ok), C.digest(s_)])
+    return out
 
 
 def equiv_mod_unicast(ref, dup):
@@ -514,7 +575,7 @@ def equiv_mod_unicast(ref, dup):
 def compare(ref, dup):
     """None when equivalent modulo extra unicast answers to duplicated QU queries, else a short description"""
     keys = allowed_keys(dup)
-    if not equiv_mod_unicast(mark(ref, keys), mark(dup, keys)):
+    if not equiv_mod_unicast(mark(ref, keys), mark(dup, keys, ref)):
         a, b = ref["sends"], dup["sends"]
         extra = [x for x in b if x not in a][:2]
         missing = [x for x in a if x not in b][:2]
@@ -545,7 +606,7 @@ def eq_line(ref, dup):
     def enc(evs):
         return "%d %s" % (len(evs), " ".join("%d %s %s" % (e[0], C.b01(e[1]), e[2]) for e in evs))
 
-    return "c16eq %s %s" % (enc(mark(ref, keys)), enc(mark(dup, keys)))
+    return "c16eq %s %s" % (enc(mark(ref, keys)), enc(mark(dup, keys, ref)))
 
 
 def model_lines(obs):
@@ -627,6 +688,38 @@ def classify(case, ref, skip_d11):
     return "C16:non-qu-duplicate-changes-behaviour", sg
 
 
+def second_copy_findings(obs):
+    """the property's exception, checked where it applies: on the second copy of every duplicated QU query (those matching
+    a recorded finding included).  Allowed: at most one unicast datagram, to the querier, with nothing the first copy did not
+    send; no callback; downstream state as the first copy left it.  Under a recorded finding, additionally: multicast of
+    exactly the records the finding predicts (D11/D11b) and, for D11b, the answer queues may differ."""
+    bad = []
+    for sc in obs["second_copies"]:
+        if sc["tc"]:
+            allowed_mc = set()
+        else:
+            allowed_mc = set(sc["remulticast"]) if sc["sig"] else set()
+        uni = [x for x in sc["second"]["sends"] if is_unicast(x)]
+        mc = [x for x in sc["second"]["sends"] if not is_unicast(x)]
+        first_uni = set()
+        for x in sc["first"]["sends"]:
+            if is_unicast(x) and len(x[3]) > 2:
+                first_uni |= set(x[3][2])
+        where = {"delivery": sc["key"], "finding": sc["sig"]}
+        if sc["second"]["callbacks"]:
+            bad.append(("C16:second-copy-fires-callbacks", "the second copy of a QU query fired %d callbacks" % len(sc["second"]["callbacks"]), where))
+        if len(uni) > 1 or any(len(x[3]) > 2 and not set(x[3][2]) <= first_uni for x in uni):
+            bad.append(("C16:second-copy-unicast-not-a-repeat", "the second copy of a QU query was answered by %d unicast datagrams / with records the first answer did not carry" % len(uni), where))
+        extra_mc = [k for x in mc if len(x[3]) > 2 for k in x[3][2] if rkey(k) not in allowed_mc]
+        if extra_mc and sc["sig"]:
+            bad.append(("C16:second-copy-multicasts-unpredicted-records", "under %s the second copy multicast %d records the finding does not predict" % (sc["sig"], len(extra_mc)), where))
+        if not sc["cache_same"]:
+            bad.append(("C16:second-copy-changes-cache", "answering the second copy of a QU query changed the cache (QueryRepeatNeutral fails on the real handler)", where))
+        if not sc["queues_same"] and sc["sig"] != D11B_SIG:
+            bad.append(("C16:second-copy-changes-queues", "answering the second copy of a QU query changed the answer queues although no recorded finding applies", where))
+    return bad
+
+
 def shrink(case, sg):
     """try the one-datagram history consisting of the culprit alone (when it was injected traffic)"""
     if not sg or "data" not in sg:
@@ -652,6 +745,13 @@ def run_case(res, case, ctx, lines_acc):
     res.nontriv("case/%s/%d/%d/%s" % (case["qu_ok"], min(nsupp, 30), len(ref["sends"]), len(ref["callbacks"]) > 0))
     diff = compare(ref, dup)
     lines_acc.append((case, ref, dup, diff))
+    for sig_, what_, where_ in second_copy_findings(dup):
+        violate_limited(res, sig_, what_, {"case": case, "where": where_})
+    res.count("second-copies-of-QU-queries-checked", len(dup["second_copies"]))
+    self_extra = any(is_unicast(x) and x[1] == "10.0.0.1" for x in dup["sends"]) and len(dup["sends"]) != len(ref["sends"])
+    if diff is None and not self_extra and ref["rul_calls"] != dup["rul_calls"]:
+        violate_limited(res, "C16:record-update-listener-calls-differ", "RecordUpdateListener.async_update_records was called %d times in the reference run, %d times with duplicates"
+                        % (ref["rul_calls"], dup["rul_calls"]), {"case": case})
     if diff is not None:
         res.count("paired-runs-that-differ")
         if res.dist["paired-runs-that-differ"] <= 8:   # naming the culprit costs one run per delivery: do it for the first few
@@ -663,16 +763,24 @@ def run_case(res, case, ctx, lines_acc):
             violate_limited(res, "C16:duplicates-change-behaviour:unclassified", "duplicated delivery changes the externally visible behaviour: " + diff["what"],
                             {"case": case, "diff": diff, "culprit": None})
     elif ref.get("cache") != dup.get("cache"):
-        # not an observation of the property: an allowed extra unicast answer to the instance's own looped-back
-        # probe is received by the instance itself and refreshes `created` of its cached copies
+        # the handler-level fact (the second copy of a QU query leaves cache and queues alone) is checked where it applies, in
+        # `second_copy_findings`.  The caches of two equivalent runs can still differ for one reason: an allowed extra unicast
+        # answer to the instance's *own* looped-back probe is delivered to the instance itself -- one more arrival, which
+        # refreshes `created` of its cached copies.  Anything else is a disagreement with the model.
         res.count("cache-differs-after-equivalent-runs")
+        if not self_extra:
+            res.disagree("c16state", {"case": case}, "final cache differs although no extra unicast answer went to the instance itself", "equal")
     if dup["d11"]:
         res.count("runs-with-deliveries-matching-a-known-finding")
-    if dup["d11"] and (res.dist.get("violations:" + D11_SIG, 0) < 3 or res.dist.get("violations:" + D11B_SIG, 0) < 3):
-        # confirm the recorded findings on a few cases (every delivery duplicated, none spared)
+    if dup["d11"]:
+        # every delivery duplicated, none spared: the deliveries matching a recorded finding get the local oracle on their
+        # second copy (so a new defect there is not filed under the finding); the global difference they cause is classified
         full = simulate(case, "all")
+        for sig_, what_, where_ in second_copy_findings(full):
+            violate_limited(res, sig_, what_, {"case": case, "where": where_, "run": "every delivery duplicated"})
+        res.count("second-copies-under-a-finding-checked", sum(1 for x in full["second_copies"] if x["sig"]))
         d2 = compare(ref, full)
-        if d2 is not None and diff is None:
+        if d2 is not None and diff is None and (res.dist.get("violations:" + D11_SIG, 0) < 3 or res.dist.get("violations:" + D11B_SIG, 0) < 3):
             sig, sg = classify(case, ref, False)
             if sig.endswith("no-single-culprit"):
                 # the main run (everything duplicated except deliveries matching a recorded finding) was equivalent, so the
@@ -711,7 +819,7 @@ def flush_model(res, ctx, acc):
         if which == "eq":
             ref, dup, diff = obs
             keys = allowed_keys(dup)
-            py = equiv_mod_unicast(mark(ref, keys), mark(dup, keys))
+            py = equiv_mod_unicast(mark(ref, keys), mark(dup, keys, ref))
             if out[a] != C.b01(py):
                 res.disagree("c16eq", {"case": case}, C.b01(py), out[a])
         else:
